@@ -23,6 +23,8 @@ TRUSTED = ['IntrusivePtr (Release / Get / destructor = DecRef if non-null): mode
 DROPPED = ['handles are structs with one pointer `_core`; `std::exchange(_core, nullptr)` into a local IntrusivePtr gets its destructor (DecRef) inserted before the return by recipe rule',
            'the reference-count value a SharedCore sees (GetRef) is a stub result; exclusivity of ref == 2 / ref == 1 is the counting lemma of C06 (promise_refs sheet)']
 ASSUMPTIONS = []
+# real-code drivers that exercise what this unit proves (thorough tier: sanity run on the tree under check)
+DRIVERS = [('task_return.cpp', ['all'], 'default')]
 
 COMMON = r'''
 #include "vf.h"
